@@ -154,3 +154,44 @@ def inside_some_scope(it) -> None:
         st.put(var, "$cvval", group)
     else:
         st.put(var, "$cvset", it.mk_bool(False))
+
+
+class DecoratorShape(Contract):
+    """The outer function of a helper decorator - `deco(function=None, *, ...)` - returns the wrapper built for the function when
+    one is given (`@deco`), and the wrapping closure itself when none is (`@deco(...)`).  The closure (`_wrap` / `wrap`) has its
+    own contract; here it is a callee that answers with a marker."""
+    inner = "_wrap"
+    closure_kw = None            # name of the keyword the closure takes its function through, when not positional
+
+    def callee(self, it, fv):
+        if fv.qualname.endswith("." + self.inner) or fv.qualname == self.inner:
+            def spec(it2, fv2, ca, node):
+                self.calls.append(ca)
+                return self.marker
+            return spec
+        return None
+
+    def setup(self, it, env):
+        st = it.st
+        self.calls = []
+        self.marker = st.sym_ref("wrapper_built_by_the_closure", "object")
+        self.fn = st.reg_fun(OracleV("function"))
+        self.given = st.fork("usage", [("@deco(function)", True), ("@deco(...)-without-a-function", True)]) == 0
+        return None, (CallArgs([self.fn]) if self.given else CallArgs())
+
+    def on_return(self, it, ret):
+        st = it.st
+        if self.given:
+            arg = None
+            if len(self.calls) == 1:
+                ca = self.calls[0]
+                arg = ca.pos[0] if ca.pos else (ca.kw.get(self.closure_kw) if self.closure_kw else next(iter(ca.kw.values()), None))
+            st.check("P7:given-a-function-the-decorator-returns-the-wrapper-built-for-exactly-that-function",
+                     z3.BoolVal(False) if arg is None else z3.And(arg == self.fn, ret == self.marker))
+        else:
+            fv = st.fun_of(ret) if it.kind(ret) == "function" else None
+            st.check("P7:without-a-function-the-decorator-returns-the-wrapping-closure(to-be-applied-to-the-function)",
+                     z3.BoolVal(isinstance(fv, FuncV) and fv.qualname.split(".")[-1] == self.inner and not self.calls))
+
+    def on_raise(self, it, exc):
+        it.st.check("P7:applying-the-decorator-never-raises", z3.BoolVal(False))
